@@ -54,6 +54,7 @@ class Contract:
         self.ghost = d.get('ghost', {})          # name -> type   (ghost state G.<name>)
         self.self_fields = {k: parse_type(v) for k, v in d.get('self_fields', {}).items()}
         self.generator = d.get('generator', False)
+        self.assigns = d.get('assigns', {})            # 'self.field' -> spec expr: field := value (after havoc, at a call)
         self.ghost_exit = d.get('ghost_exit', {})      # ghost name -> spec expr, assigned at normal exit
         self.expr_rules = d.get('expr_rules', {})      # exact source text of an expression -> rule
         self.decreases = d.get('decreases')
@@ -93,6 +94,7 @@ class EngineBase:
         self.cur_loops = []
         self.lemma_obligations = []
         self._defs = {}
+        self.merge_enabled = os.environ.get('PYVC_NOMERGE') is None
         self._lit_by_id = {}
         self.jobs = int(os.environ.get('PYVC_JOBS', '8'))
 
@@ -310,6 +312,10 @@ class EngineBase:
             return self.iter_sorts[v.sort](self, st, v)
         if isinstance(v, VOpt):
             return self.iter_to_list(v.inner, st)
+        if isinstance(v, VRef) and isinstance(st.heap[v.rid], HRec) and st.heap[v.rid].cls == 'iterator':
+            it = st.heap[v.rid]
+            if self.const_int(it.fields['pos']) == 0:        # a fresh iterator: the whole sequence
+                return it.fields['list']
         raise Unsupported("iteration over %r" % (v,))
 
     def dict_keys_list(self, h, st):
